@@ -299,7 +299,8 @@ def job_snapshot(gear_cls, hist, variables, units, tag):
             O.prove(f"snapshot:cell=interpolation-of-the-recorded-samples-in-the-requested-unit", L.And(*goals), props=("C18",))
     return Job(f"powertrain.snapshot[{gear_cls},{hist} instants,{tag}]", body, ("C18", "C17"),
                functions=["gearpy.powertrain.Powertrain.snapshot"], expect_covers=("returns",),
-               meta=dict(family="snapshot", cls=gear_cls, hist=hist, variables=list(variables) if variables else None))
+               meta=dict(family="snapshot", cls=gear_cls, hist=hist, variables=list(variables) if variables else None,
+                         thorough_only=tag.startswith("subset#")))
 
 
 def job_export(gear_cls, hist, units, time_unit):
@@ -367,6 +368,16 @@ def all_jobs(exact_tables=None):
                 if not set(vs) <= have:
                     continue
             jobs.append(job_snapshot(cls, 2, vs, UNITS_A, tag))
+        # thorough tier: EVERY non-empty subset of the variables this pair of elements records (the property's 2^11)
+        have = [v for v in ALL_VARS if v in (set(VARS_BASE) | {"electric current", "pwm"} |
+                                             ({"tangential force"} if cls != "Flywheel" else set()) |
+                                             ({"bending stress"} if cls in ("SpurGear", "HelicalGear", "WormWheel") else set()) |
+                                             ({"contact stress"} if cls in ("SpurGear", "HelicalGear") else set()))]
+        for mask in range(1, 2 ** len(have)):
+            vs = tuple(v for k, v in enumerate(have) if mask >> k & 1)
+            if len(vs) in (1, len(have)):
+                continue
+            jobs.append(job_snapshot(cls, 2, vs, UNITS_A, f"subset#{mask}"))
         jobs.append(job_snapshot(cls, 3, None, UNITS_B, "all(default),other-units"))
         jobs.append(job_snapshot(cls, 1, None, UNITS_A, "all(default),single-instant"))
         jobs.append(job_export(cls, 2, UNITS_A, "sec"))
